@@ -9,11 +9,13 @@ import (
 	"crypto/sha256"
 	"encoding/binary"
 	"encoding/hex"
+	"encoding/json"
 	"fmt"
 	"os"
 	"path/filepath"
 	"runtime/debug"
 	"strings"
+	"sync"
 
 	"github.com/go-git/go-billy/v6/osfs"
 	"github.com/go-git/go-git/v6/plumbing"
@@ -210,4 +212,22 @@ func aStoreObjects(g *fw.Git, format string, objs []aObj) []string {
 		}
 	}
 	return ids
+}
+
+// aFail is c.Fail plus an optional dump of (key, what) lines to the file named
+// by VERIF_A_KEYS (development aid: the framework lists only the first 25
+// violations).
+var aKeysMu sync.Mutex
+
+func aFail(c *fw.Ctx, key, what string, replay any) {
+	if p := os.Getenv("VERIF_A_KEYS"); p != "" {
+		aKeysMu.Lock()
+		if f, err := os.OpenFile(p, os.O_APPEND|os.O_CREATE|os.O_WRONLY, 0o644); err == nil {
+			b, _ := json.Marshal(map[string]string{"key": key, "what": what})
+			f.Write(append(b, '\n'))
+			f.Close()
+		}
+		aKeysMu.Unlock()
+	}
+	c.Fail(key, what, replay)
 }
